@@ -62,7 +62,7 @@ def make_plan(prop, seed, tier, index):
     family = pick_family(prop, tier, index)
     rs = run_seed(seed, prop.id, family, index)
     rng = random.Random(rs)
-    plan = prop.gen(rng, family, tier)
+    plan = prop.gen_indexed(rng, family, tier, index) if hasattr(prop, "gen_indexed") else prop.gen(rng, family, tier)
     plan.setdefault("format", 1)
     plan["property"] = prop.id
     plan["family"] = family
@@ -495,6 +495,10 @@ def replay(path):
     """Re-execute a replay file in a fresh process. Exit code semantics in vsim."""
     with open(path) as f:
         plan = json.load(f)
+    if plan.get("engine") == "bufsim":
+        from . import bufsim
+
+        return bufsim.replay(plan)
     pid = plan["property"]
     want = plan.get("violation", {})
     plan_exec = {k: v for k, v in plan.items() if k not in ("violation", "note")}
@@ -522,8 +526,9 @@ def check(pid, tier="quick", seed=None, jobs=None, runs=None):
     n = runs if runs is not None else prop.runs(tier)
     indices = list(range(n))
     extra = {}
+    extra_viols = []
     if hasattr(prop, "pre_check"):
-        extra = prop.pre_check(tier, seed) or {}
+        extra, extra_viols = prop.pre_check(tier, seed)
     results, crashes = run_batch(pid, seed, tier, indices, jobs)
     harness = [r for r in results if "harness" in r]
     if harness:
@@ -581,6 +586,9 @@ def check(pid, tier="quick", seed=None, jobs=None, runs=None):
                 kind, r1 = run_isolated(pid, plan)
                 tr = r1["trace"] if kind == "ok" else None
                 rep["path"] = write_replay(pid, plan, v, tr, "not minimised")
+    for path, oracle, detail in extra_viols:
+        exit_code = 1
+        reported[oracle] = {"count": 1, "index": -1, "viol": {"oracle": oracle, "detail": detail}, "path": path, "extra": True}
     for key, (k, cnt) in known_hits.items():
         print("KNOWN-FINDING: property=%s %s (oracle %s, %d runs)" % (pid, k.get("what", ""), k.get("oracle"), cnt))
     for oracle, rep in reported.items():
